@@ -1155,6 +1155,12 @@ pub async fn run_c14(w: &mut World, m: &mut Mon, r: &mut R, t: &Twin) {
     let dep = |w: &World| w.ix_deposit(t.acct0, t.a0, ak, ta_a, 7, None);
     let order = r.gen_range(0..3);
     let t0 = w.chain.now();
+    if r.gen_bool(0.5) {
+        // somebody propagates the (unpaused) state in the very second in which the pause is then
+        // declared and propagated: the later propagation is the one that counts
+        let _ = w.exec(m, &[prop.clone()], &[]).await;
+        m.r.count("C14.propagations_in_the_second_before_the_pause");
+    }
     let o = w.exec(m, &[pause.clone()], &[&fa]).await;
     if o.ok() {
         m.r.count("C14.pauses");
